@@ -160,3 +160,16 @@ func (p *Prog) Units() []*Fn {
 	}
 	return out
 }
+
+// IsModulePkg reports whether pkg is one of the module's own packages.
+func (p *Prog) IsModulePkg(pkg *types.Package) bool {
+	if pkg == nil {
+		return false
+	}
+	for _, pk := range p.Pkgs {
+		if pk.Types == pkg {
+			return true
+		}
+	}
+	return false
+}
